@@ -4,12 +4,25 @@ import (
 	"fmt"
 	"strings"
 
+	goerrors "github.com/ajitpratap0/GoSQLX/pkg/errors"
 	"github.com/ajitpratap0/GoSQLX/pkg/models"
 	"github.com/ajitpratap0/GoSQLX/pkg/sql/ast"
 )
 
 // parseMatchAgainst parses MySQL MATCH(...) AGAINST('text' [IN NATURAL LANGUAGE MODE | IN BOOLEAN MODE | WITH QUERY EXPANSION])
 func (p *Parser) parseMatchAgainst(matchFunc *ast.FunctionCall) (ast.Expression, error) {
+	// MATCH(...) AGAINST (MATCH(...) AGAINST (...)) recurses without passing
+	// through parseExpression: count it against the depth limit.
+	p.depth++
+	defer func() { p.depth-- }()
+	if p.depth > MaxRecursionDepth {
+		return nil, goerrors.RecursionDepthLimitError(
+			p.depth,
+			MaxRecursionDepth,
+			p.currentLocation(),
+			"",
+		)
+	}
 	p.advance() // Consume AGAINST
 	if !p.isType(models.TokenTypeLParen) {
 		return nil, p.expectedError("(")
@@ -23,11 +36,13 @@ func (p *Parser) parseMatchAgainst(matchFunc *ast.FunctionCall) (ast.Expression,
 	}
 
 	// Consume optional mode keywords until we hit )
-	mode := ""
+	var modeWords strings.Builder
 	for !p.isType(models.TokenTypeRParen) && !p.isType(models.TokenTypeEOF) {
-		mode += " " + p.currentToken.Literal
+		modeWords.WriteString(" ")
+		modeWords.WriteString(p.currentToken.Literal)
 		p.advance()
 	}
+	mode := modeWords.String()
 
 	if !p.isType(models.TokenTypeRParen) {
 		return nil, p.expectedError(")")
